@@ -417,6 +417,9 @@ func (c *c01) walk(n *Node, in MIn, dv reflect.Value, path string, depth int) {
 				}
 				s = in.V.S
 			}
+			if s == "n/a" {
+				s = "" // the harness' preprocess function maps this placeholder to the empty string
+			}
 			inner = MIn{V: VS(strings.TrimSpace(s))}
 		} else if c.mode == "parse" {
 			if in.Missing || in.V.K != "s" {
